@@ -224,8 +224,9 @@ func (e *Engine) externCall(st *State, fn *ssa.Function, args []Value, depth int
 	}
 	e.unmodelled[name]++
 	// calls to unmodelled externals are visible to contracts as events "ext:<Name>" (arguments kept)
-	st.addTrace(TraceEv{Kind: "ext:" + fn.Name(), Args: args})
-	k(st, e.havoc(st, resultType(fn.Signature), "ext."+fn.Name()))
+	res := e.havoc(st, resultType(fn.Signature), "ext."+fn.Name())
+	st.addTrace(TraceEv{Kind: "ext:" + fn.Name(), Args: args, Extra: res})
+	k(st, res)
 }
 
 // ---------------------------------------------------------------------------
